@@ -292,7 +292,7 @@ def main():
                 diagnosticFile.close()
             startPrint = 0
             output_time += (time.time()-output_start)
-            average_output = output_time*saveStep/nLoops
+            average_output = output_time*saveStep/(nLoops+1)
 
         nLoops += 1
         ti += 1
